@@ -1168,6 +1168,7 @@ def public_case(env: Env, fn, schema, spec, present, attrs_given, mod=None, same
             model = env.spox.build(build_in, {f"res_{i}": shape_of(v) for i, v in enumerate(outs)})
     except Exception as e:  # noqa: BLE001
         msg = f"{type(e).__name__}: {str(e)[:200]}"
+        r["mro"] = [c.__name__ for c in type(e).__mro__]
         if "number of op outputs should be 1" in msg:
             # the schema's own inference rejects the node because spox cannot leave optional outputs out
             return case, {**r, "status": "optional-outputs-not-omittable", "err": msg}
@@ -1536,6 +1537,296 @@ def compare_call(env, model, r):
     return None
 
 
+# ----------------------------------------------------------------------------- spellings of attribute arguments
+def run_spell_case(env: Env, fn, schema, case):
+    """The real constructor with minimal arguments, required attributes given, and the attribute under
+    test spelled as `case` says (left out / None / a valid spelling / a malformed value).
+    -> dict(status: ok|raised|unobservable, mro, err, proto, given)"""
+    from harness import lib_c11spell as SP
+
+    np = env.np
+    a = case["attr"]
+    names, keep, args = {}, [], {}
+    for formal in schema.inputs:
+        kind = formal.option.name
+        if kind == "Single":
+            v = env.argument(sentinel_type(env, formal))
+            keep.append(v)
+            names[id(v)] = f"in_{formal.name}"
+            args[formal.name] = v
+        elif kind == "Optional":
+            args[formal.name] = None
+        else:
+            vs = []
+            for i in range(max(formal.min_arity, 1)):
+                v = env.argument(sentinel_type(env, formal))
+                keep.append(v)
+                names[id(v)] = f"in_{formal.name}_{i}"
+                vs.append(v)
+            args[formal.name] = vs
+    cb_vars = [env.argument(env.ts.Tensor(np.float32, (2, 3))) for _ in range(2)]
+    keep += cb_vars
+    given = {}
+    for b, sb in schema.attributes.items():
+        if sb.required and b != a:
+            if sb.type.name == "GRAPH":
+                given[b] = lambda *xs: list(cb_vars)
+            elif SP.is_dtype_param(fn, b):
+                given[b] = np.int32
+            else:
+                given[b] = test_value(env, sb)
+    count_attr = OUTPUT_COUNT_ATTRS.get(schema.name)
+    if count_attr in schema.attributes and count_attr != a:
+        given[count_attr] = N_VARIADIC_OUT
+    others = dict(given)
+    if case["cls"] != "omitted":
+        given[a] = SP.value_of(env, case)
+    extra = {}
+    res = {"status": "ok", "given": others, "extra": extra, "keep": keep, "mro": None, "err": None, "proto": None}
+
+    def call():
+        with env.no_inference():
+            return fn(**args, **given, **extra)
+
+    try:
+        try:
+            out = call()
+        except TypeError as e0:
+            m = re.search(r"missing \d+ required keyword-only arguments?: (.*)$", str(e0))
+            names_ = re.findall(r"'(\w+)'", m.group(1)) if m else []
+            known = set(schema.attributes) | {f.name for f in schema.inputs}
+            if names_ and not (set(names_) & known) and any(f.option.name == "Variadic" for f in schema.outputs):
+                for nm in names_:
+                    extra[nm] = N_VARIADIC_OUT
+                if case["cls"] != "omitted":
+                    given[a] = SP.value_of(env, case)  # fresh one-shot iterables
+                out = call()
+            else:
+                raise
+    except Exception as e:  # noqa: BLE001
+        return {**res, "status": "raised", "mro": [c.__name__ for c in type(e).__mro__],
+                "err": f"{type(e).__name__}: {str(e)[:120]}"}
+    try:
+        var = first_var(env, out)
+        node = var._op
+        scope = env.Scope()
+        scope.node[node] = "n"
+        for v in node.inputs:
+            if v is not None and v not in scope.var:
+                scope.var[v] = names.get(id(v), "in_X")
+        for key, v in node.outputs.get_vars().items():
+            scope.var[v] = key
+        protos = node.to_onnx(scope, build_subgraph=lambda n, key, g: env.onnx.helper.make_graph([], key, [], []))
+        return {**res, "proto": protos[0]}
+    except Exception as e:  # noqa: BLE001
+        return {**res, "status": "unobservable", "err": f"{type(e).__name__}: {e}"}
+
+
+def spell_request(env, info, pair, schema, fn, case, r):
+    """driver request for `Conform.callAttrsE` on the extracted constructor"""
+    from harness import lib_c11spell as SP
+
+    f = info["ctors"].get(pair["ctor"])
+    if f is None or f["cls"] is None or f["cls"] not in info["classes"]:
+        return None
+    c = dict(f)
+    c["cls"] = info["classes"][f["cls"]]
+    spelled = {}
+    for b, v in r["given"].items():
+        sb = schema.attributes[b]
+        if sb.type.name == "GRAPH":
+            spelled[b] = {"s": "ok", "v": {"t": "other", "v": "GRAPH"}}
+        else:
+            spelled[b] = {"s": "ok", "v": to_val(env, sb, v)}
+    a, cls = case["attr"], case["cls"]
+    if cls == "none":
+        spelled[a] = {"s": "none"}
+    elif cls == "bad":
+        spelled[a] = {"s": "bad"}
+    elif cls == "valid":
+        v = SP.value_of(env, case)
+        if case["akind"] == "DTYPE":
+            spelled[a] = {"s": "ok", "v": {"t": "dtype", "v": SP.canonical_dtype_name(env, v)}}
+        elif case["akind"] in ("INT", "FLOAT", "INTS", "FLOATS"):
+            spelled[a] = {"s": "ok", "v": to_val(env, schema.attributes[a], list(v) if case["akind"].endswith("S") else v)}
+        elif case["akind"] == "STRING":
+            spelled[a] = {"s": "ok", "v": {"t": "str", "v": v.decode() if isinstance(v, bytes) else str(v)}}
+        elif case["akind"] == "STRINGS":
+            spelled[a] = {"s": "ok", "v": {"t": "strs", "v": [x.decode() if isinstance(x, bytes) else str(x) for x in v]}}
+        else:
+            spelled[a] = {"s": "ok", "v": {"t": "other", "v": case["akind"]}}
+    return {"kind": "spell", "ctor": c, "spelled": spelled}
+
+
+def compare_spell(env, model, r):
+    if "error" in model:
+        return f"driver error {model['error']}"
+    real_raises = r["status"] == "raised"
+    if bool(model.get("raises")) != real_raises:
+        return f"model raises={model.get('raises')} vs real {r['status']} ({r.get('err')})"
+    if real_raises:
+        return None
+    real = {ap.name: proto_val(env, ap) for ap in r["proto"].attribute}
+    mod = {n: v for n, v in model["attrs"]}
+    if set(real) != set(mod):
+        return f"attribute names {sorted(mod)} vs {sorted(real)}"
+    for n in real:
+        x, y = mod[n], real[n]
+        if x["t"] == "other" or y["t"] == "other":
+            continue
+        if x != y:
+            return f"attribute {n}: model {x} vs real {y}"
+    return None
+
+
+def spelling_calls(ck, env: Env, info, pairs, mid, op, version, schema, fn, first, cache, stats, reqs, req_meta):
+    """exhaustive: every attribute parameter of this constructor x every spelling"""
+    from harness import lib_c11spell as SP
+
+    ckey = ("spell", fn, schema.name, schema.since_version)
+    if ckey not in cache:
+        runs = []
+        skip = {OUTPUT_COUNT_ATTRS.get(schema.name)} - {None}
+        for case in SP.cases_for(env, fn, schema, skip):
+            runs.append((case, run_spell_case(env, fn, schema, case)))
+        cache[ckey] = runs
+        fresh = True
+    else:
+        fresh = False
+    unobs = 0
+    for case, r in cache[ckey]:
+        stats["spelling_calls"] = stats.get("spelling_calls", 0) + 1
+        ck.count(("spell", mid, op, case["attr"], case["sp"]))
+        if r["status"] == "unobservable":
+            unobs += 1
+            continue
+        k = f"spelling_{case['cls']}_{case['req']}"
+        if fresh:
+            stats[k] = stats.get(k, 0) + 1
+        for key, what in SP.judge(env, mid, op, schema, case, r["status"], r["mro"], r["err"], r["proto"]):
+            ck.failure(key, what, {"module": mid, "op": op, "kind": "spell", "case": case})
+        if fresh and (mid, op) in pairs and info is not None:
+            try:
+                rq = spell_request(env, info, pairs[(mid, op)], schema, fn, case, r)
+            except Exception as e:  # noqa: BLE001
+                rq = None
+                unobs += 1
+            if rq is not None:
+                reqs.append(rq)
+                req_meta.append((mid, op, case, r))
+    return unobs
+
+
+DTYPE_SPECS = [
+    {"op": "RandomNormal", "inputs": {}, "attrs": {"shape": [2]}, "always": ["shape"]},
+    {"op": "RandomUniform", "inputs": {}, "attrs": {"shape": [2]}, "always": ["shape"]},
+    {"op": "RandomNormalLike", "inputs": {"input": _f32(2)}, "attrs": {}},
+    {"op": "RandomUniformLike", "inputs": {"input": _f32(2)}, "attrs": {}},
+    {"op": "Multinomial", "inputs": {"input": _f32(1, 3)}, "attrs": {}},
+    {"op": "Bernoulli", "inputs": {"input": _f32(2)}, "attrs": {}},
+    {"op": "EyeLike", "inputs": {"input": _f32(2, 2)}, "attrs": {}},
+    {"op": "ConstantOfShape", "inputs": {"input": _i64(1)}, "attrs": {}},
+    {"op": "Softmax", "inputs": {"input": _f32(2, 2)}, "attrs": {}},
+    {"op": "Flatten", "inputs": {"input": _f32(2, 2)}, "attrs": {}},
+    {"op": "Transpose", "inputs": {"data": _f32(2, 2)}, "attrs": {}},
+    {"op": "DepthToSpace", "inputs": {"input": _f32(1, 4, 1, 1)}, "attrs": {"blocksize": 2}, "always": ["blocksize"]},
+]
+
+
+def public_spell_case(env: Env, mid, op, version, schema, fn, mod, spec, case):
+    """constructor -> spox.build -> ModelProto, public API only. -> verdicts or None (not applicable)"""
+    from harness import lib_c11spell as SP
+
+    a = case["attr"]
+    attrs = {b: v for b, v in spec["attrs"].items()
+             if b in schema.attributes and (schema.attributes[b].required or b in spec.get("always", [])) and b != a}
+    if any(sb.required and b not in attrs and b != a for b, sb in schema.attributes.items()):
+        return None
+    spec2 = {**spec, "attrs": dict(attrs)}
+    given = list(attrs)
+    if case["cls"] != "omitted":
+        spec2["attrs"][a] = SP.value_of(env, case)
+        given.append(a)
+    opt_inputs = [f.name for f in schema.inputs if f.option.name == "Optional"]
+    present = set(x for x in (spec.get("subsets") or [[]])[0] if x in opt_inputs)
+    res = public_case(env, fn, schema, spec2, present, given, mod)
+    if res is None:
+        return None
+    _, r = res
+    if r["status"] == "not-one-node" or r["status"] == "optional-outputs-not-omittable":
+        return None
+    status = "ok" if r["status"] == "ok" else "raised"
+    verdicts = SP.judge(env, mid, op, schema, case, status, r.get("mro"), r.get("err"), r.get("proto"))
+    if verdicts and case["cls"] == "none" and status == "raised" and "TypeError" not in (r.get("mro") or []):
+        # `None` on an optional attribute is refused - by the constructor, or by ONNX's own inference
+        # because the operator semantically needs the attribute (ml Scaler)? The same call with the
+        # attribute left out decides: if that is refused alike, `None` was read as "absent".
+        spec3 = {**spec, "attrs": dict(attrs)}
+        res3 = public_case(env, fn, schema, spec3, present, list(attrs), mod)
+        if res3 is not None and res3[1]["status"] == "raised" and (res3[1].get("mro") or [None])[0] == (r.get("mro") or [None])[0]:
+            return []
+    return verdicts
+
+
+def public_spelling_oracle(ck, env: Env, stats, only=None):
+    """None / malformed values for every attribute of the operators the public oracle has valid typed
+    arguments for, plus every valid spelling of every dtype-valued attribute (element types the
+    operator's type constraint admits); in every module. Public API + ModelProto only."""
+    from harness import lib_c11spell as SP
+    from translator.constructors import MODULES
+
+    table = SP.spellings(env)
+    for mid, rel, domain, version, pymod in MODULES:
+        try:
+            mod = env.module(pymod)
+            force = env.schemas(domain, version)
+            ctors = dict(getattr(mod, "_CONSTRUCTORS", {}))
+        except Exception as e:  # noqa: BLE001
+            ck.broken("correspondence", f"module {pymod} not importable", f"{type(e).__name__}: {e}")
+            continue
+        seen_ops = set()
+        for spec in PUBLIC_SPECS + DTYPE_SPECS:
+            op = spec["op"]
+            schema = force.get(op)
+            if schema is None or schema.deprecated or op not in ctors or op in seen_ops:
+                continue
+            seen_ops.add(op)
+            fn = ctors[op]
+            try:
+                cases = SP.cases_for(env, fn, schema)
+                allowed = None
+                chosen = []
+                for ai, a in enumerate(sorted({c["attr"] for c in cases})):
+                    mine = [c for c in cases if c["attr"] == a]
+                    bad = [c for c in mine if c["cls"] == "bad"]
+                    if mine[0]["akind"] == "DTYPE":
+                        if allowed is None:
+                            allowed = {env.onnx.TensorProto.DataType.Name(e) for e in allowed_elems(env, schema, schema.outputs[0].type_str)}
+                        sel = [c for c in mine if c["cls"] in ("none", "omitted", "bad")
+                               or (c["cls"] == "valid" and SP.find_spelling(env, "DTYPE", c["sp"])[3] in allowed)]
+                    else:
+                        k = (ai + len(op)) % max(len(bad), 1)
+                        sel = [c for c in mine if c["cls"] == "none"] + bad[k:k + 1] + bad[(k + 3) % max(len(bad), 1):(k + 3) % max(len(bad), 1) + 1]
+                    chosen += sel
+            except Exception as e:  # noqa: BLE001
+                ck.broken("correspondence", f"public spelling oracle {mid}:{op} not observable", f"{type(e).__name__}: {e}")
+                continue
+            for case in chosen:
+                if only is not None and (only["module"], only["op"], only["case"]["attr"], only["case"]["sp"]) != (mid, op, case["attr"], case["sp"]):
+                    continue
+                try:
+                    verdicts = public_spell_case(env, mid, op, version, schema, fn, mod, spec, case)
+                except Exception as e:  # noqa: BLE001
+                    ck.broken("correspondence", f"public spelling oracle {mid}:{op} not observable", f"{type(e).__name__}: {e}")
+                    continue
+                if verdicts is None:
+                    continue
+                stats["public_spelling_cases"] = stats.get("public_spelling_cases", 0) + 1
+                ck.count(("public-spell", mid, op, case["attr"], case["sp"]))
+                for k, what in verdicts:
+                    ck.failure(k, what, {"module": mid, "op": op, "kind": "public-spell", "case": case})
+
+
 # ----------------------------------------------------------------------------- run
 def failing_pairs(lean_res) -> set:
     out = set()
@@ -1661,6 +1952,11 @@ def internal_oracle(ck, env: Env, info, stats, extra):
                         if len(ck.samples) < 4 and ("" in list(p.input) or r["given"]):
                             ck.sample({"module": mid, "op": op, "case": case, "inputs": list(p.input),
                                        "attributes": [a.name for a in p.attribute]})
+                u2 = spelling_calls(ck, env, info, pairs, mid, op, version, schema, fn, first, cache, stats, reqs, req_meta)
+                if u2:
+                    unobs += u2
+                    if unobs - u2 < 3:
+                        ck.broken("correspondence", f"NodeProto of {mid}:{op} not observable through Node.to_onnx (spelling calls)", "")
             except Exception as e:  # noqa: BLE001
                 unobs += 1
                 if unobs <= 3:
@@ -1715,6 +2011,7 @@ def run(ck: core.Check):
             public_tensor_oracle(ck, env, stats)
             public_type_oracle(ck, env, stats)
             public_dtype_oracle(ck, env, stats, ck.rng)
+            public_spelling_oracle(ck, env, stats)
         except Exception as e:  # noqa: BLE001
             ck.broken("correspondence", "public tensor/type oracle not observable", f"{type(e).__name__}: {e}")
     reqs, req_meta = [], []
@@ -1731,7 +2028,7 @@ def run(ck: core.Check):
     mism = 0
     for (mid, op, case, r), m in zip(req_meta, outs):
         try:
-            d = compare_call(env, m, r)
+            d = compare_spell(env, m, r) if "sp" in case else compare_call(env, m, r)
         except Exception as e:  # noqa: BLE001
             d = f"comparison not observable: {type(e).__name__}: {e}"
         if d:
@@ -1804,6 +2101,17 @@ def replay(ck: core.Check, doc) -> bool:
         else:
             (public_tensor_oracle if c["kind"] == "public-tensor" else public_type_oracle)(ck2, env, {})
         verdicts += [(f["key"], f["what"]) for f in ck2.failures]
+    if c.get("kind") == "spell" and fn is not None:
+        from harness import lib_c11spell as SP
+
+        r = run_spell_case(env, fn, schema, c["case"])
+        print("outcome:", r["status"], r.get("err"), str(r.get("proto")).replace("\n", " ")[:300])
+        if r["status"] != "unobservable":
+            verdicts += SP.judge(env, mid, op, schema, c["case"], r["status"], r["mro"], r["err"], r["proto"])
+    if c.get("kind") == "public-spell" and fn is not None:
+        spec = next((s_ for s_ in PUBLIC_SPECS + DTYPE_SPECS if s_["op"] == op), None)
+        if spec is not None:
+            verdicts += public_spell_case(env, mid, op, version, schema, fn, mod, spec, c["case"]) or []
     if c.get("kind") == "call" and fn is not None:
         r = run_case(env, fn, schema, c["case"])
         verdicts += judge(env, mid, op, version, schema, c["case"], r, cls)
